@@ -87,7 +87,8 @@ def check(sc):
             continue
         if c["now"] != t:
             out.add("C05/current_time", "call in period %d saw current_time %r" % (t, c["now"]))
-        if c["datetime"] != start + timedelta(minutes=period) * t:
+        # (2 microseconds of slack: start + t x period is exact here up to the rounding of a fractional period to whole microseconds)
+        if abs(c["datetime"] - (start + timedelta(minutes=period) * t)) > timedelta(microseconds=2):
             out.add("C05/current_datetime", "t=%d saw %s expected %s" % (t, c["datetime"], start + timedelta(minutes=period) * t))
         prev = by_t.get(t - 1)
         prev_e = {}
